@@ -109,10 +109,15 @@ package funcGen
 //@   requires self != nil
 //@   ensures[function-of-operand] result1 == tbOK(box(c)) && (result1 ==> result0 == tbV(box(c)))
 //@   assigns nothing
+// a comparison function is a (partial) function of its operands: bfOK / bfV (assumed for host functions; the generator's
+// own comparison is value.Equal)
+//@ ghost func bfOK(f any, a any, b any) bool
+//@ ghost func bfV(f any, a any, b any) bool
 //@ type-contract BoolFunc
 //@   option params=st,a,b
 //@   requires self != nil && validStack(st)
 //@   requires[operands-present] nonnil(a) && nonnil(b)
+//@   ensures[function-of-operands] ((result1 == nil) == bfOK(self, box(a), box(b))) && (result1 == nil ==> result0 == bfV(self, box(a), box(b)))
 //@   ensures len(st.storage.data) >= old(len(st.storage.data))
 //@   ensures[storage-array] ref(st.storage.data) == old(ref(st.storage.data)) || fresh(st.storage.data)
 //@   ensures forall i in 0..st.offs+st.size :: st.storage.data[i] == old(st.storage.data[i])
